@@ -53,6 +53,11 @@ func aggressiveNorm(values []string) string {
 		m = strings.TrimSuffix(m, ";q=1.0")
 		m = strings.TrimSuffix(m, ";q=1.00")
 		m = strings.TrimSuffix(m, ";q=1.000")
+		for _, z := range []string{";q=0", ";q=0.0", ";q=0.00", ";q=0.000"} {
+			if strings.HasSuffix(m, z) {
+				m = "" // "not acceptable": the cache drops such members; debatable, so no verdict
+			}
+		}
 		if m == "x-gzip" {
 			m = "gzip"
 		}
